@@ -335,7 +335,9 @@ Proof.
   apply wp_bind, wp_get. cbn beta iota.
   destruct (s_stopping s || negb (is_some (s_startd s))) eqn:D.
   - r_walk r_calls2. all: r_done.
-  - apply wp_bind, wp_upd. cbn beta iota. apply wp_bind.
+  - match goal with |- wp _ (if ?b then _ else _) _ _ _ => destruct b end.
+    { (* more was processed while shutdown's commit was under way: commit again *) r_walk r_calls2. all: r_done. }
+    apply wp_bind, wp_upd. cbn beta iota. apply wp_bind.
     assert (R1 : Rel s g (set_shutd false s) g) by relupd. clear R.
     apply (E_stop s g _ g _ R1). intros r1 g1 s1 R2 D1. destruct r1; cbn beta iota; [| split; [exact R2 | intro E; discriminate E]].
     apply wp_bind, wp_upd. cbn beta iota.
